@@ -693,9 +693,10 @@ pub fn sem_text(v: &Value) -> Value {
                 p => return json!({"error": format!("proc {} on biodivine", p)}),
             }
         }
-        "hybrid" | "hybrid_noopt" => {
-            let bd = if proc_ == "stmrew" { BdAdf::from_parser_with_stm_rewrite(&parser) } else { BdAdf::from_parser(&parser) };
-            let mut adf = if backend == "hybrid" { bd.hybrid_step() } else { bd.hybrid_step_opt(false) };
+        "hybrid" | "hybrid_noopt" | "hybrid_rew" => {
+            // hybrid_rew: the object the CLI builds for --stmrew (rewriting prepared first), then the bridge, then any procedure
+            let bd = if proc_ == "stmrew" || backend == "hybrid_rew" { BdAdf::from_parser_with_stm_rewrite(&parser) } else { BdAdf::from_parser(&parser) };
+            let mut adf = if backend != "hybrid_noopt" { bd.hybrid_step() } else { bd.hybrid_step_opt(false) };
             match proc_ {
                 "stmrew" | "stmrew2" => adf.stable_bdd_representation(&bd),
                 p => run_proc(&mut adf, p, v).0,
@@ -892,8 +893,9 @@ pub fn backend_sem(n: usize, tabs: &[Vec<u8>], backend: &str, inner: &str, v: &V
             "stable_rew_pre" => BdAdf::from_parser_with_stm_rewrite(&parser).stable_bdd_representation(),
             _ => return json!({"error": "proc"}),
         },
-        "hyb" | "hybraw" => {
-            let mut adf = if backend == "hyb" { bio.hybrid_step() } else { bio.hybrid_step_opt(false) };
+        "hyb" | "hybraw" | "hybrew" => {
+            let bio = if backend == "hybrew" { BdAdf::from_parser_with_stm_rewrite(&parser) } else { bio };
+            let mut adf = if backend != "hybraw" { bio.hybrid_step() } else { bio.hybrid_step_opt(false) };
             let r = if inner == "stable_rew2" {
                 adf.stable_bdd_representation(&bio)
             } else {
